@@ -17,7 +17,7 @@ LEVEL = "model_checking"
 RULE = (
     "All block-occupancy vectors (first/last cell 1..3 points incl. the pin, other cells 0..3; thorough 0..4) of the layouts 1x2..1x5, "
     "2x2, 2x3 (thorough adds 1x6, 1x7, 2x4) realised as points strictly inside their cells; BlockKFold: n_splits = 2..#occupied (and "
-    "#occupied+1, which must raise) x shuffle x balance x seeds 0..3 x {shape, spacing}; BlockShuffleSplit (layouts with <= 4 cells; "
+    "#occupied+1, which must raise) x shuffle x balance x seeds 0..3 x {shape, spacing} x feature matrix {float C-ordered, integer dtype, Fortran-ordered}; BlockShuffleSplit (layouts with <= 4 cells; "
     "thorough <= 6): test_size {0.1,0.25,0.5,0.75,2} x train_size {None,0.5} x balancing {1,2,3} x n_splits {1,2,3} x seeds 0..3. "
     "Every split is checked against block membership known by construction. Non-trivial: >= 3 occupied blocks with unequal populations."
 )
@@ -53,6 +53,9 @@ def cases(tier, seed):
                     yield dict(cv="kfold", layout=[nbx, nby], occ=occ, spec="shape")
                     if ncell <= 4:
                         yield dict(cv="kfold", layout=[nbx, nby], occ=occ, spec="spacing")
+                        # other representations of the feature matrix: integer dtype (coordinates scaled by 20), Fortran order
+                        yield dict(cv="kfold", layout=[nbx, nby], occ=occ, spec="spacing", rep="int")
+                        yield dict(cv="kfold", layout=[nbx, nby], occ=occ, spec="shape", rep="F")
                     if ncell <= (4 if tier == "quick" else 6) and (tier == "quick" or max(occ) <= 3):
                         yield dict(cv="shuffle", layout=[nbx, nby], occ=occ, spec="shape")
     yield dict(cv="badX", layout=[2, 2], occ=[1, 1, 1, 1], spec="shape")
@@ -104,6 +107,13 @@ def run(case, rec):
     nocc = len(blocks)
     pop = {b: labels.count(b) for b in blocks}
     spec = dict(shape=(nby, nbx)) if case["spec"] == "shape" else dict(spacing=1.0)
+    rep = case.get("rep")
+    if rep == "int":
+        X = np.round(X * 20).astype(np.int64)
+        if "spacing" in spec:
+            spec = dict(spacing=20)
+    elif rep == "F":
+        X = np.asfortranarray(X)
     rec.trivial = not (nocc >= 3 and len(set(pop.values())) > 1)
     if case["cv"] == "badX":
         rec.trivial = True
